@@ -60,6 +60,13 @@ Definition chk_gemmx (c : config * Z * sop * gbody * (Z * Z) * option (list stri
          end
   end.
 
+(* snax_phs: (cfg, op, number of phs_switch fields, decoded switch values, real field names, real values) *)
+Definition chk_phs (c : config * sop * nat * list Z * option (list string) * option (list value)) : bool :=
+  match c with
+  | (cfg, op, nsw, sw, fs, vs) =>
+      fields_ok (phs_fields cfg nsw) fs && optvals_eqb (option_map (map snd) (phs_vals cfg op sw)) vs
+  end.
+
 Definition hval_eqb (a b : hval) : bool :=
   match a, b with
   | HPtr x, HPtr y => Nat.eqb x y | HDim0, HDim0 => true | HOne, HOne => true | _, _ => false end.
